@@ -1,5 +1,5 @@
 """C02 scenarios: rounding."""
-from .lib import scenario, dense, prod
+from .lib import scenario, dense, prod, abs2sum
 from .c01 import unfolding_generic_rank, _or, DELTA
 
 ROUNDOFF2 = 1e-26    # (relative roundoff)^2 allowance so that a replay in float64 never fails on rounding alone
@@ -16,8 +16,13 @@ def so_tt_input(E, name, N, R, patterns, M=None, dtype='float64', sym_cores=None
             cores.append(E.pos_tensor('%s%d_' % (name, k), shp, pat, dtype))
         else:
             c = E.tn.zeros(shp, dtype=E.dt(dtype))
-            for p in pat:
-                c[p] = 1 + (sum(p) + k) % 3
+            for j, p in enumerate(pat):
+                if dtype.startswith('complex'):
+                    from ..values import PHASES
+                    ph = PHASES[(j + k) % len(PHASES)]
+                    c[p] = E.cconst((1 + (sum(p) + k) % 3) * ph[0], (1 + (sum(p) + k) % 3) * ph[1])
+                else:
+                    c[p] = 1 + (sum(p) + k) % 3
             cores.append(c)
     return E.tt.TT(cores), cores
 
@@ -50,9 +55,9 @@ def tt_round(E, s):
     d = len(N)
     if s.get('general'):
         from .lib import tt_input
-        x, xc = tt_input(E, 'x', N, R, 'float64', M)       # arbitrary sign-free entries (rank-1 profiles: every QR/SVD input is a row or a column)
+        x, xc = tt_input(E, 'x', N, R, s.get('dtype', 'float64'), M)       # arbitrary sign-free entries (rank-1 profiles: every QR/SVD input is a row or a column)
     else:
-        x, xc = so_tt_input(E, 'x', N, R, s['patterns'], M, sym_cores=s.get('sym_cores'))
+        x, xc = so_tt_input(E, 'x', N, R, s['patterns'], M, dtype=s.get('dtype', 'float64'), sym_cores=s.get('sym_cores'))
     if s.get('plus_zero'):
         # the same tensor stored with inflated ranks: a structurally zero rank block in front of / behind the data (sum with the zero tensor)
         z = E.tt.zeros(list(N)) if M is None else E.tt.zeros([(m, n) for m, n in zip(M, N)])
@@ -109,8 +114,8 @@ def tt_round(E, s):
     # accuracy
     yd = dense(E, y.cores)
     diff = yd - xd
-    err2 = tn.sum(diff * diff).item()
-    nrm2 = tn.sum(xd * xd).item()
+    err2 = abs2sum(E, diff)
+    nrm2 = abs2sum(E, xd)
     e = 1e-12 if (eps is None or s.get('eps') == 'zero') else eps
     bound_ok = err2 <= ((e * e) * (1 + DELTA) + ROUNDOFF2) * nrm2
     maxrank = max([1] + R[1:-1])
